@@ -255,7 +255,7 @@ def harness_profile(p, mode):
         "name": p["name"], "mode": mode, "writers": p["writers"], "streamers": p["streamers"],
         "sleepy": p["sleepy_lossy"] if mode == "lossy" else [], "keys": p["keys"], "B": p["B"],
         "outcap": p["outcap"], "timeout_ms": COMPLETE_TIMEOUT_MS if mode == "complete" else 20,
-        "max_sleep_ms": 50 if mode == "lossy" else 0, "pad": p.get("pad", 0),
+        "max_sleep_ms": 70 if mode == "lossy" else 0, "pad": p.get("pad", 0),
     }
 
 
@@ -315,8 +315,9 @@ def tlc_trace(ctx, p, mode, items, tag, timeout=1800):
     lines, spans = [], []
     for scn, evs in items:
         start = len(lines) + 1
-        lines.append(json.dumps(RESET))
-        lines += [json.dumps(e) for e in evs]
+        will = [{"s": e["p"], "w": e["m"], "q": e["q"]} for e in evs if e["ev"] == "recv"]
+        lines.append(json.dumps(dict(RESET, will=will)))
+        lines += [json.dumps(dict(e, will=[])) for e in evs]
         spans.append((start, len(lines)))
     mod = "RelayTrace_" + tag
     d = ctx.spec_copy(AREA)
@@ -530,8 +531,11 @@ def blocked_signature(mode, res):
 
 # ------------------------------------------------------------------ run
 def one_config(ctx, p, mode, scripts, rnd, tag, race, cov):
+    import time
     scenarios = [{"i": i, "script": decorate(s, rnd, mode, p)} for i, s in enumerate(scripts)]
+    t_h = time.time()
     results = run_harness(ctx, p, mode, scenarios, tag, race=race)
+    t_h = time.time() - t_h
     items, errors, blocked = [], [], []
     for scn in scenarios:
         r = results.get(scn["i"])
@@ -561,7 +565,9 @@ def one_config(ctx, p, mode, scripts, rnd, tag, race, cov):
             p["name"], mode, scn["i"], r.get("detail")))
     if cov["mech"].get("group_mismatch"):
         raise vlib.Inconclusive("StreamerResponse.Group differs from the writer's control group (pinned beyond the property)")
+    t_v = time.time()
     stats, rejected = validate(ctx, p, mode, items, tag)
+    t_v = time.time() - t_v
     if not rejected:
         for scn, evs in items:
             cls, text = classify(p, mode, evs, len(evs) - 1)
@@ -572,7 +578,8 @@ def one_config(ctx, p, mode, scripts, rnd, tag, race, cov):
     cov["tv_transitions"] += stats["generated"]
     cov["accepted"] += stats["accepted"]
     cov["by_config"]["%s/%s" % (p["name"], mode)] = {"scenarios": len(scenarios), "accepted": stats["accepted"],
-                                                     "rejected": len(rejected)}
+                                                     "rejected": len(rejected), "harness_s": round(t_h, 1),
+                                                     "tlc_s": round(t_v, 1), "tlc_states": stats["distinct"]}
     if items and len(cov["samples"]) < 3:
         scn, evs = items[len(items) // 2]
         cov["samples"].append({"config": "%s/%s" % (p["name"], mode), "script": [
@@ -598,7 +605,9 @@ def handle_rejections(ctx, p, mode, rejected, race):
         scn, evs, idx, _, text = classified[0]
         fn = ctx.save_replay({"profile": p, "mode": mode, "script": scn["script"], "events": evs,
                               "unexplained_event": idx, "drift": True}, name="drift-%s-%d.json" % (ctx.tier, ctx.seed))
-        raise vlib.Inconclusive("DRIFT %s/%s: %s (no clause of the statement contradicted); %s" % (p["name"], mode, text, fn))
+        # decided at the end of the run: another configuration may show a clear contradiction
+        ctx.notes.append("DRIFT %s/%s: %s (no clause of the statement contradicted); %s" % (p["name"], mode, text, fn))
+        return
     done = {}
     for scn, evs, idx, cls, text in clear:
         if done.get(cls, 0) >= 2 or any(v[0] == "C20 %s %s" % (mode, cls) for v in ctx.violations) or len(ctx.violations) >= 2:
@@ -624,7 +633,7 @@ def handle_rejections(ctx, p, mode, rejected, race):
 
 def unreproduced(ctx):
     if ctx.notes and not ctx.violations:
-        raise vlib.Inconclusive("rejected traces did not reproduce: " + "; ".join(ctx.notes[:3]))
+        raise vlib.Inconclusive("rejected traces without a reproduced contradiction of the statement: " + "; ".join(ctx.notes[:3]))
 
 
 def handle_blocked(ctx, p, mode, scn, r, race, independent=False):
@@ -673,7 +682,7 @@ def run(ctx):
     states, trans, runs = design(ctx, thorough)
     cov = {"mech": {}, "max_call_us": {}, "tv_states": 0, "tv_transitions": 0, "accepted": 0, "by_config": {},
            "samples": []}
-    n = 260 if thorough else 45
+    n = 400 if thorough else 120
     for p in profiles(thorough):
         scripts = gen_scripts(ctx, p, n, "g_" + p["name"])
         if len(scripts) < n // 3:
@@ -685,7 +694,7 @@ def run(ctx):
     unreproduced(ctx)
     probe(ctx, profiles(False)[0], cov)
     m = cov["mech"]
-    need = ["writes", "recv", "sopen", "ssub", "sclose_graceful", "sclose_cancel", "quiesce", "unauthorized_writes", "orphaned"]
+    need = ["writes", "recv", "sopen", "ssub", "sclose_graceful", "sclose_cancel", "quiesce", "unauthorized_writes"]
     missing = [k for k in need if not m.get(k)]
     if missing and not ctx.violations:
         raise vlib.Inconclusive("mechanisms never exercised: %s" % missing)
